@@ -260,6 +260,26 @@ pub fn run(ctx: &Ctx) {
             ctx.seen("released all-zero: PayloadKey (slot, drop_in_place)");
             ctx.distinct("PayloadKey slot|drop_in_place");
         }
+        // the same at every address alignment (PayloadKey has alignment 1: it can sit at any offset of a struct)
+        if std::mem::align_of::<PayloadKey>() == 1 {
+            let size = std::mem::size_of::<PayloadKey>();
+            for off in 0..16usize {
+                let mut area = [0xAAu8; 96];
+                let after: Vec<u8> = unsafe {
+                    let p = area.as_mut_ptr().add(16 + off) as *mut PayloadKey;
+                    std::ptr::write(p, if off % 2 == 0 { PayloadKey::new(&raw) } else { PayloadKey::new(&raw).clone() });
+                    std::ptr::drop_in_place(p);
+                    std::slice::from_raw_parts(p as *const u8, size).to_vec()
+                };
+                ctx.eval();
+                if after.iter().any(|b| *b != 0) {
+                    ctx.violation("C20:secret-bytes-present-after-drop:PayloadKey-at-an-unaligned-address", json!({"address_offset_mod_16": (area.as_ptr() as usize + 16 + off) % 16, "slot_after_drop_in_place": hex(&after), "key": hex(&raw)}));
+                    break;
+                }
+                ctx.seen("released all-zero: PayloadKey at every address alignment (drop_in_place)");
+                ctx.distinct(&format!("PayloadKey slot|align{}", (area.as_ptr() as usize + 16 + off) % 16));
+            }
+        }
         let mut slot = std::mem::MaybeUninit::<PayloadKey>::uninit();
         slot.write(PayloadKey::new(&raw).clone());
         let after: Vec<u8> = unsafe {
